@@ -71,3 +71,51 @@ func VerifC15Fifo() {
 	}
 	vCover("c15-fifo-end")
 }
+
+// VerifC15Backpressure: a subscriber with window 1 and queue capacity 1 that acknowledges each
+// message as it arrives, and a publisher that is held back by the full queue: the messages of
+// the publisher arrive in publish order (QoS 0 or QoS 1 throughout).
+func VerifC15Backpressure() {
+	be := newRecBackend()
+	be.SessionQueueSize = 1
+	be.ClientInflightMessages = 1
+	_, sconn := startClient(be, mkConnect("s", vBool("clean"), nil), false)
+	sub := packet.NewSubscribe()
+	sub.ID = 1
+	sub.Subscriptions = []packet.Subscription{{Topic: "t", QOS: 1}}
+	sconn.in <- sub
+	vQuiesce()
+	pub, _ := mkClient(be.MemoryBackend, "p", true)
+	q := packet.QOS(vChoice("qos", 2))
+	N := vParam("N", 4)
+	done := make(chan int, 1)
+	go func() {
+		for i := 0; i < N; i++ {
+			be.MemoryBackend.Publish(pub, &packet.Message{Topic: "t", Payload: []byte{byte(i + 1)}, QOS: q}, nil)
+		}
+		done <- 1
+	}()
+	seen := 0
+	for round := 0; round < N+1 && seen < N; round++ {
+		vQuiesce()
+		k := 0
+		for i := 0; i < sconn.sentCount(); i++ {
+			p, ok := sconn.sentAt(i).(*packet.Publish)
+			if !ok {
+				continue
+			}
+			k++
+			if k <= seen {
+				continue
+			}
+			vAssert(len(p.Message.Payload) == 1 && p.Message.Payload[0] == byte(k), "messages of one publisher at one QoS arrive in publish order, also under back-pressure")
+			seen = k
+			if p.Message.QOS == 1 {
+				sconn.in <- &packet.Puback{ID: p.ID}
+			}
+		}
+	}
+	<-done
+	vAssert(seen == N, "every message arrives while the subscriber acknowledges")
+	vCover("c15-backpressure-end")
+}
